@@ -282,7 +282,14 @@ func execRop(e *readerEnv, o *rop, segs []segment.Segment) (res string) {
 		if err != nil {
 			return "ERR " + err.Error()
 		}
-		return fmt.Sprintf("id=%q nil=%v", id, id == nil)
+		// the caller keeps the returned bytes while other readers run
+		keep := append([]byte(nil), id...)
+		wasNil := id == nil
+		e.y("docid.holdingResult")
+		if !bytes.Equal(keep, id) && e.viol != nil && *e.viol == "" {
+			*e.viol = fmt.Sprintf("DocID(%d) returned %q, but the returned bytes read %q after other readers ran", o.Doc, keep, id)
+		}
+		return fmt.Sprintf("id=%q nil=%v", keep, wasNil)
 	case ropDocNumbers:
 		bm, err := seg.DocNumbers(o.IDs)
 		if err != nil {
